@@ -156,3 +156,51 @@ Qed.
 
 Print Assumptions steps_agree.
 Print Assumptions steps_cover.
+
+(* ---- the dispatch cases around Value.Get / Value.Set (GET, SET and their fused forms) ---------------- *)
+
+Ltac split_obj :=
+  match goal with
+  | |- context [match ?x with _ => _ end] => is_var x; destruct x
+  | |- context [znth ?l ?n] => destruct (znth l n)
+  | |- context [obj_get ?e ?s ?r ?k ?p] => destruct (obj_get e s r k p)
+  | |- context [obj_set ?e ?s ?r ?k ?v] => destruct (obj_set e s r k v)
+  end; cbv beta iota.
+Ltac same_obj := first [ same_now | split_obj; same_obj ].
+Ltac this_case_obj :=
+  eval_tests;
+  let H := fresh "H" in
+  intro H; injection H as <-; same_obj.
+
+Theorem steps_agree_obj : forall grow ext_get ext_set ext_len ext_getattr ext_setattr codes pc i slots ops s r,
+  step_gen_obj ext_get ext_set i slots ops s = Some r ->
+  sres_same r (step1 grow ext_get ext_set ext_len ext_getattr ext_setattr codes pc i slots ops s).
+Proof.
+  intros grow ext_get ext_set ext_len ext_getattr ext_setattr codes pc i slots ops s r.
+  unfold sres_same, step_gen_obj, step1, bin_of, local_bin_of.
+  cbv zeta.
+  C_to_num.
+  cbv delta [c_Add c_And c_Append c_BitAnd c_BitComplement c_BitLsh c_BitOr c_BitRsh c_BitXor c_Call
+             c_CallVariadic c_Cast c_Const c_Convert c_Copy c_Div c_Eq c_FastCall c_FastGetInt c_FastSetInt
+             c_Func c_Get c_GlobalFunc c_GlobalGet c_GlobalRef c_GlobalSet c_GlobalZero c_Gt c_Gte c_IncDec
+             c_Iter c_Jump c_JumpFalse c_JumpTrue c_Len c_LocalAdd c_LocalDiv c_LocalGet c_LocalIncDec
+             c_LocalMul c_LocalSet c_LocalSub c_LocalZero c_Lt c_Lte c_Make c_Mod c_Mul c_Negate c_Neq
+             c_NewSlice c_Not c_Or c_Panic c_Pass c_Pop c_Push c_Range c_Return c_Set c_Slice c_Sub c_Zero
+             c_FastGet c_FastSet c_GetAttr c_SetAttr c_FastGetAttr c_FastSetAttr c_FastCallAttr].
+  generalize (icode i); intro c.
+  Time walk ltac:(this_case_obj) ltac:(discriminate).
+Time Qed.
+Print Assumptions steps_agree_obj.
+
+(* the object dispatch cases are all translated *)
+Theorem steps_cover_obj : forall name, In name ["codeGet"; "codeSet"; "codeFastGet"; "codeFastSet"; "codeFastGetInt"; "codeFastSetInt"] ->
+  In name step_gen_obj_opcodes /\
+  forall ext_get ext_set i slots ops s, icode i = C name -> step_gen_obj ext_get ext_set i slots ops s <> None.
+Proof.
+  intros name Hin. split.
+  - apply existsb_eqb_In. cbn [In] in Hin.
+    repeat (destruct Hin as [<-|Hin]; [vm_compute; reflexivity|]). destruct Hin.
+  - intros ext_get ext_set i slots ops s Hc. unfold step_gen_obj. cbv zeta. rewrite Hc. cbn [In] in Hin.
+    repeat (destruct Hin as [<-|Hin]; [C_to_num; eval_tests; discriminate|]). destruct Hin.
+Qed.
+Print Assumptions steps_cover_obj.
